@@ -221,6 +221,21 @@ def gen_instruction(rng, w, v, valid_p=0.7, uniform=False):
     bases = sorted(sim.bases.values(), key=lambda s: s.id)
     reqs = sorted(sim.requests.values(), key=lambda s: s.id)
     mech = w.env.mechatronics[v.mechatronics_id]
+    # "do what you are doing, but somewhere else": a vehicle that is charging / queueing at a station or parked / charging at a base is
+    # told to do the same at ANOTHER station or base (far away, as a rule).  Own stream; the main stream's draws above are kept.
+    w._remote_calls = getattr(w, '_remote_calls', 0) + 1
+    rr = random.Random(f'remote|{v.id}|{int(sim.sim_time)}|{type(st0).__name__}|{w._remote_calls}')
+    if rr.random() < 0.25:
+        if isinstance(st0, (ChargingStation, ChargeQueueing)):
+            others = [x for x in stations if x.id != st0.station_id]
+            if others:
+                tgt = rr.choice(others)
+                return I.ChargeStationInstruction(v.id, tgt.id, st0.charger_id if st0.charger_id in tgt.state else rr.choice(sorted(tgt.state.keys())))
+        if isinstance(st0, (ReserveBase, ChargingBase)):
+            others = [x for x in bases if x.id != st0.base_id]
+            if others:
+                tgt = rr.choice(others)
+                return I.ReserveBaseInstruction(v.id, tgt.id) if isinstance(st0, ReserveBase) else I.ChargeBaseInstruction(v.id, tgt.id, st0.charger_id)
     def pick_charger(st):
         if st is not None and valid:
             ok = [c for c, cs in st.state.items() if mech.valid_charger(cs.charger)]
